@@ -204,6 +204,22 @@ def run(ctx):
             ctx.violation("c11-num2bits-correspondence", {"stage": "L2", "case": [c, t, n], "implementation": flagged, "model": m,
                                                           "broken": "correspondence Curve.nonstrictFlagged <-> find_nonstrict_binary_conversion"}, no_input=True)
     samples.append({"case": list(meta[253]), "impl_reply": impl[253][:200], "model": model[253]})
+    # ---- a call of a *function* whose name is in the table is not an instantiation (mechanical mutant: the early exit for locals and signals) ----
+    reqs, meta = [], []
+    for c in CURVES:
+        for n in ("Sign", "Poseidon", "Num2Bits_strict", "AliasCheck"):
+            for form in ("template T() { signal input a; var v = %s(a); signal output o; o <-- v; }", "function f(a) { var v = %s(a); return v; }",
+                         "template T() { signal input a; signal output o; o <-- %s(a); }"):
+                reqs.append(json.dumps({"src": form % n, "curve": c}))
+                meta.append((c, n))
+    for (c, n), i, rq in zip(meta, vlib.run_harness("defpasses", reqs), reqs):
+        evals += 1
+        ir = json.loads(i) if i.startswith("{") else {"error": i}
+        flagged = sum(1 for r in ir.get("reports", []) if r["id"] in ("CS0016", "CS0010"))
+        if "error" in ir or flagged:
+            l1 += 1
+            ctx.violation("c11-function-call-flagged %s %s" % (c, n), {"stage": "L1 only instantiations are flagged", "input": rq, "implementation_flags": flagged,
+                                                                       "error": ir.get("error"), "broken": None})
     # ---- LessThan range check ------------------------------------------------------------
     primes = {"BN254": d["primes"]["Bn254"], "BLS12_381": d["primes"]["Bls12_381"], "GOLDILOCKS": d["primes"]["Goldilocks"]}
     reqs, meta = [], []
@@ -277,6 +293,11 @@ def run(ctx):
             # nb[0], nb[1] are small range checks, nb[2] is too wide; after the loop `i` is 2
             ("loop-index-after-loop", head + "component nb[3]; component rb = Num2Bits(%d); var i = 0; while (i < 2) { nb[i] = Num2Bits(%d); nb[i].in <== x[i]; i++; } "
              "nb[2] = Num2Bits(%d); nb[i].in <== a; rb.in <== b; lt.in[0] <== a; lt.in[1] <== b; o <== lt.out; }" % (small, small, big), 1, 1),
+            # the value that is range checked is another expression than the input of LessThan (mechanical mutant: equality of infix
+            # expressions by operator only)
+            ("distinct-expressions", head + "component ra = Num2Bits(%d); component rb = Num2Bits(%d); ra.in <== a; rb.in <== b + 1; lt.in[0] <== a; lt.in[1] <== b + 2; o <== lt.out; }" % (small, small), 1, 1),
+            ("distinct-literals", head + "component ra = Num2Bits(%d); component rb = Num2Bits(%d); ra.in <== a; rb.in <== b * 3; lt.in[0] <== a; lt.in[1] <== b * 5; o <== lt.out; }" % (small, small), 1, 1),
+            ("equal-expressions", head + "component ra = Num2Bits(%d); component rb = Num2Bits(%d); ra.in <== a; rb.in <== b + 1; lt.in[0] <== a; lt.in[1] <== b + 1; o <== lt.out; }" % (small, small), 0, 0),
             # all elements alike: tracking a component array is allowed (0), declining to is as well (1)
             ("loop-index-uniform", head + "component nb[3]; component rb = Num2Bits(%d); var i = 0; while (i < 2) { nb[i] = Num2Bits(%d); nb[i].in <== x[i]; i++; } "
              "nb[2] = Num2Bits(%d); nb[i].in <== a; rb.in <== b; lt.in[0] <== a; lt.in[1] <== b; o <== lt.out; }" % (small, small, small), 0, 1),
